@@ -89,7 +89,7 @@ def ind_scenario(rng, fid, fam, cfg, n, style, twins=("batch",), tf=None, extra=
         prog.append(("poke", -1, (o, max(h, c2, o), min(l, c2, o), c2, v + rng.choice([0, 1, 3]))))
         prog.append(("calculate_index", "", -1, "fresh"))
         twins = ()
-    if not tf and not cfg.ctype and not reindex and rng.random() < 0.1 and n >= 12 \
+    if not tf and not cfg.ctype and not reindex and rng.random() < 0.12 and n >= 12 \
             and not any(x[0] == "poke" for x in prog):
         # an older candle is corrected in place (a late trade report), then every reading from there on is
         # recomputed with calculate_index(start, end): all of them, whatever values they replace
@@ -97,7 +97,14 @@ def ind_scenario(rng, fid, fam, cfg, n, style, twins=("batch",), tf=None, extra=
         o, h, l, c, v = st[k_][1:]
         c2 = c + rng.choice([2, 3, -2])
         prog.append(("poke", k_, (o, max(h, c2, o), min(l, c2, o), c2, v)))
-        prog.append(("calculate_range", "", k_))
+        first = k_
+        if rng.random() < 0.5 and k_ >= 8:
+            # a second, much older candle corrected too: one recompute from the older one covers both
+            first = rng.randint(1, k_ - 7)
+            o, h, l, c, v = st[first][1:]
+            c3 = c + rng.choice([2, 3, -2])
+            prog.append(("poke", first, (o, max(h, c3, o), min(l, c3, o), c3, v)))
+        prog.append(("calculate_range", "", first))
         twins = ()
     if reindex:
         # refresh the newest reading the way Hexital.calculate_index() does by default (index -1)
@@ -555,7 +562,14 @@ def _scenarios(pid, tier, rng):
                 # a lifespan (and Heikin-Ashi on top of it): the candles a shorter history shows and a longer one
                 # still retains are the same candles
                 + fam_manager(rng, pid, k(40, 240), has=(True, False), lifes=(2, 3, 5, 8), units=("N",),
-                              twins=("aligned",), tag="l", hexshare=0.3))
+                              twins=("aligned",), tag="l", hexshare=0.3)
+                # ... and on gap-filled timeframes: what is closed stays where it is, nothing is slipped in
+                # between two closed candles later
+                + [dict(sc, clause_props=dict(sc.get("clause_props", {}), **{"def": ["C02"]}))
+                   # (what the definition gives for the stream so far is final by construction: a closed candle
+                   #  that is not the definition's is one that still has to change)
+                   for sc in fam_manager(rng, pid, k(120, 500), fills=(True,), lifes=(2, 2, 3, 4, 6), twins=(), tag="f",
+                                         collapse_ops=False)])
     if pid == "C03":
         return (fam_manager(rng, pid, k(350, 1700)) + fam_disorder(rng, pid, k(40, 200))
                 + fam_aware(rng, pid, k(20, 150))
@@ -1134,13 +1148,14 @@ def fam_hexital(rng, pid, count, twins=("standalone",), force_ha=False):
     sees several buckets and gap filling stays small."""
     from streams import tf_seconds
 
+    # (also ladders whose steps are not multiples of one another: T10 -> T15, T30 -> T45, H2 -> H3, S10 -> S15)
     LADDERS = [["S10", "S30", "T1"], ["T1", "T5"], ["T5", "T10", "T15"], ["S5", "S10", "S30"], ["H1", "H2", "H4"],
-               ["T15", "T30", "H1"]]
+               ["T15", "T30", "H1"], ["T30", "T45", "H1"], ["H2", "H3", "H4"], ["S10", "S15", "S30"], ["T10", "T15"]]
     out = []
     for t in range(count):
         nmem = rng.choice([1, 2, 2, 3])
         ladder = rng.choice(LADDERS)
-        base_tf = rng.choice([None, None, None, ladder[0]])
+        base_tf = rng.choice([None, None, None, ladder[0], rng.choice(ladder)])
         cfgs = _uniq([rand_cfg(rng, rng.choice(ALL_KINDS), tf=rng.choice([None] + ladder))
                       for _ in range(nmem)])
         if pid == "C08" and rng.random() < 0.25:
